@@ -95,7 +95,7 @@ def run_property(prop: str, tier: str, seed: int):
         n_reg += 1
         try:
             H.REPLAYING = True
-            mod.check(case, reg_stats)
+            H.guarded(mod.check)(case, reg_stats)
         except Violation as v:
             if rel in known_files:
                 out_lines.append(f"KNOWN-FINDING: property={prop} {known_files[rel]['what']}")
@@ -187,7 +187,7 @@ def replay(prop: str, path: str):
     case, msg = H.load_replay(path)
     try:
         H.REPLAYING = True
-        mod.check(case, Stats())
+        H.guarded(mod.check)(case, Stats())
     except Violation as v:
         print(f"  {v.message}")
         print(f"VIOLATION property={prop} replay={os.path.relpath(path, H.VERIF)}")
